@@ -90,6 +90,11 @@ CLAIMS["C15"] = dict(
    text="Decides that the template context and the formatters are siblings over the same conversions and helpers for every Zerv object: {{ semver }}/{{ pep440 }} stringify the formatter's own conversion of the unmodified object; part accessors use Display's helpers and feed the fields of the same name; docker = SemVer with '-' twice; 16 scalar variables wired name-to-name; six functions registered by name, sanitize presets mapped to the renderers' sanitisers; hash/hash_int/prefix/prefix_if have the guard shape of their contracts. Recomposition as a value equality and format_timestamp vs the calendar are not decided.",
    note="Trusted: rustc MIR, zfacts, rules/c15.py.",
    ref="4/C15")
+CLAIMS["C02"] = dict(
+   technique="wiring extraction by origin tracing (VcsData -> ZervVars, helpers -> VcsData), required/forbidden-token rules on the constant git argv of every invocation, source-of-walk and first-hit shape rules, polarity rule",
+   text="THIN claim, stated as such: what git itself computes over runtime repositories (nearest tag, counts, dirtiness) cannot be decided from Rust source. Decided is the part that is in the Rust source and that the offline suite never executes (every git test needs Docker): field wiring on both sides of VcsData, NoTagsFound on the tagless path, the tokens of all 10 git invocations (incl. <tag>..HEAD and ^{commit}), the walked list = rev-list HEAD output restricted to tagged commits, return at first hit, tag chosen by max_by over the version orderings, dirty = !output.is_empty().",
+   note="Trusted: rustc MIR, zfacts, rules/c02.py. Limitation accepted in DESIGN: replacing a git command by an equivalent one needs a re-audit of the argv table.",
+   ref="4/C02")
 REASONS = {}
 
 def main():
